@@ -245,6 +245,24 @@ func c10Frame(rng *rand.Rand, f map[string]interface{}, liveReq string) (payload
 			return []byte(`{"jsonrpc":"2.0","method":"T.Ping","params":[],"id":2.75}`), false, false
 		case "emptymethod":
 			return []byte(`{"jsonrpc":"2.0","method":"","params":[]}`), false, false
+		case "p1absent":
+			return []byte(`{"jsonrpc":"2.0","method":"T.Echo","id":"c-p1a"}`), false, false
+		case "p1null":
+			return []byte(`{"jsonrpc":"2.0","method":"T.Echo","params":null,"id":"c-p1n"}`), false, false
+		case "p1empty":
+			return []byte(`{"jsonrpc":"2.0","method":"T.Echo","params":[],"id":"c-p1e"}`), false, false
+		case "p1two":
+			return []byte(`{"jsonrpc":"2.0","method":"T.Echo","params":["a","b"],"id":"c-p1t"}`), false, false
+		case "p1object":
+			return []byte(`{"jsonrpc":"2.0","method":"T.Echo","params":{"s":"a"},"id":"c-p1o"}`), false, false
+		case "p1wrongtype":
+			return []byte(`{"jsonrpc":"2.0","method":"T.Echo","params":[{"not":"a string"}],"id":"c-p1w"}`), false, false
+		case "p1string":
+			return []byte(`{"jsonrpc":"2.0","method":"T.Echo","params":"a","id":"c-p1s"}`), false, false
+		case "p1absentnotif":
+			return []byte(`{"jsonrpc":"2.0","method":"T.Echo"}`), false, false
+		case "p1emptynotif":
+			return []byte(`{"jsonrpc":"2.0","method":"T.Echo","params":[]}`), false, false
 		}
 	case "wsviolation":
 		// raw frame bytes; the writer masks them if it is the client side
